@@ -50,6 +50,7 @@ theorem NDInv.step {s s' : State} {st : Step} (hi : NDInv s) (h : step? s st = s
   | complete t g => exact ⟨hi.cur, hi.next, hi.retiring⟩
   | adminReplace g a => exact ⟨hi.cur, hi.next, hi.retiring⟩
   | adminClose g a => exact ⟨hi.cur, hi.next, hi.retiring⟩
+  | cancelCtx g => exact ⟨hi.cur, hi.next, hi.retiring⟩
   | cb k g => cases k <;> exact ⟨hi.cur, hi.next, hi.retiring⟩
 
 theorem Reach.nd {s : State} (h : Reach s) : NDInv s := by
@@ -438,6 +439,7 @@ theorem keeps_append (a : Addr) : ∀ (xs ys : List Step), keeps a (xs ++ ys) = 
     | complete t g => simp [keeps, ih]
     | adminReplace g b => simp [keeps, ih]
     | adminClose g b => simp [keeps, ih]
+    | cancelCtx g => simp [keeps, ih]
 
 theorem keeps_replicate_cb (a : Addr) (k : CbKind) (g : Gen) : ∀ n, keeps a (List.replicate n (.cb k g)) = true
   | 0 => rfl
